@@ -62,6 +62,29 @@ fn expected(ti: &TreeInfo) -> Vec<Found> {
     out
 }
 
+/// is `node` somewhere below `c` (by identity)?
+fn contains(c: &tree_sitter::Node, node: &tree_sitter::Node) -> bool {
+    let mut stack = vec![*c];
+    let mut steps = 0;
+    while let Some(n) = stack.pop() {
+        steps += 1;
+        if steps > 200_000 {
+            return false;
+        }
+        if n.id() == node.id() {
+            return true;
+        }
+        for i in 0..n.child_count() {
+            if let Some(ch) = n.child(i) {
+                if ch.start_byte() <= node.start_byte() && node.end_byte() <= ch.end_byte() {
+                    stack.push(ch);
+                }
+            }
+        }
+    }
+    false
+}
+
 fn check_displays(errors: &[ParseError], source: &str, out: &mut Out, case: &serde_json::Value) -> bool {
     let path = Path::new("dir/test.py");
     for e in errors {
@@ -244,12 +267,49 @@ impl Prop for C18 {
             let opt = b.into_option();
             let y = opt.as_ref().map(|t| describe(t.error()));
             let was_some = opt.is_some();
+            // other trees come and go; the stored node must still belong to the bundle's tree:
+            // its ancestors are the nodes a top-down walk of that tree passes through
+            let decoys: Vec<tree_sitter::Tree> = (0..12).map(|k| parse_python(&format!("decoy{} = {}\n", k, "x + ".repeat(k + 1) + "1"))).collect();
+            let chain_ok = opt.as_ref().map(|t| {
+                let node = *t.error().node();
+                let mut up: Vec<(usize, usize, u16)> = Vec::new();
+                let mut cur = node.parent();
+                while let Some(p) = cur {
+                    up.push((p.start_byte(), p.end_byte(), p.kind_id()));
+                    cur = p.parent();
+                }
+                // top-down: descend from the root to the node
+                let mut down: Vec<(usize, usize, u16)> = Vec::new();
+                let mut at = t.tree().root_node();
+                let mut guard = 0;
+                while at.id() != node.id() && guard < 10_000 {
+                    guard += 1;
+                    down.push((at.start_byte(), at.end_byte(), at.kind_id()));
+                    let mut next = None;
+                    for i in 0..at.child_count() {
+                        if let Some(c) = at.child(i) {
+                            let inside = c.start_byte() <= node.start_byte() && node.end_byte() <= c.end_byte();
+                            if c.id() == node.id() || (inside && contains(&c, &node)) {
+                                next = Some(c);
+                                break;
+                            }
+                        }
+                    }
+                    match next {
+                        Some(c) => at = c,
+                        None => break,
+                    }
+                }
+                down.reverse();
+                up == down
+            });
+            drop(decoys);
             let z = opt.map(|t| {
                 let _ = t.tree().root_node().kind();
                 let tr = t.into_tree();
                 ParseError::first(&tr).map(|e| describe(&e))
             });
-            (a, x, y, was_some, z)
+            (a, x, y, was_some, z, chain_ok)
         });
         out.eval();
         match firsts {
@@ -257,7 +317,14 @@ impl Prop for C18 {
                 out.violation("C18:into_first-panic", &format!("{}: {}", p.location, p.message), case);
                 return;
             }
-            Ok((a, x, y, was_some, z)) => {
+            Ok((a, x, y, was_some, z, chain_ok)) => {
+                if chain_ok == Some(false) {
+                    out.violation("C18:bundle-node-detached-from-its-tree", "after into_first(..).into_option() the ancestors of the stored node are not the nodes of the bundle's own tree", case);
+                    return;
+                }
+                if chain_ok == Some(true) {
+                    out.feat("bundle_node_ancestors_checked");
+                }
                 let w = want.first().cloned();
                 if a != w || x != w || y != w || was_some != w.is_some() || (was_some && z != Some(w.clone())) {
                     out.violation("C18:into_first-differs", &format!("into_first answers {:?} {:?} {:?} {:?}", a, x, y, z), case);
@@ -316,4 +383,7 @@ const DIRECTED: &[&str] = &[
     "a b c d e f\n",
     "def f():\n    return (1 +\n\nprint(3)\n",
     "x = '''unterminated\nmore\n",
+    "foo(1, 2\nbar()\n",
+    "[1, (2, 3\nx = 4\n",
+    "{a: [b, (c\n",
 ];
